@@ -1287,6 +1287,14 @@ func (e *Entry) FixChoice() {
 	for _, ce := range e.Dir {
 		ce.FixChoice()
 	}
+	if e.RPC != nil {
+		if e.RPC.Input != nil {
+			e.RPC.Input.FixChoice()
+		}
+		if e.RPC.Output != nil {
+			e.RPC.Output.FixChoice()
+		}
+	}
 }
 
 // ReadOnly returns true if e is a read-only variable (config == false).
